@@ -61,6 +61,26 @@ def _mentions(node: ast.AST, var: str, member: str) -> bool:
     return any(isinstance(n, ast.Attribute) and n.attr == member and isinstance(n.value, ast.Name) and n.value.id == var for n in ast.walk(node))
 
 
+def own_key_rule(ctx, rule: str) -> None:
+    """A factor constrains rows of its own origin only: it must be registered under the unmodified key of the factors
+    mapping (re-attributing it - e.g. from a reference to its base table - filters other scans of that table and makes
+    visit_table generate a predicate over a reference that is not opened yet, so parsing fails with KeyError)."""
+    prog = ctx.prog
+    filt = prog.func(f'{PARSER}:Container.Context.Tables.filter')
+    # a factor constrains rows of its own origin only: it must be registered under the unmodified key of the
+    # factors mapping (re-attributing it - e.g. from a reference to its base table - filters other scans of that table
+    # and makes visit_table generate a predicate over a reference that is not opened yet)
+    loops = [n for n in core.walk_local(filt.node) if isinstance(n, ast.For) and 'factors.items()' in core.src(n.iter)]
+    ok_key = False
+    for lp in loops:
+        if isinstance(lp.target, ast.Tuple) and len(lp.target.elts) == 2 and isinstance(lp.target.elts[0], ast.Name):
+            kvar, fvar = lp.target.elts[0].id, core.src(lp.target.elts[1])
+            adds = [c for c in core.calls_in(lp) if isinstance(c.func, ast.Attribute) and c.func.attr == 'add' and core.src(c.func.value).endswith('.factors')]
+            rebinds = [s for s in ast.walk(lp) if isinstance(s, (ast.Assign, ast.AugAssign, ast.NamedExpr)) and kvar in {x.id for tg in ([s.target] if not isinstance(s, ast.Assign) else s.targets) for x in ast.walk(tg) if isinstance(x, ast.Name)}]
+            ok_key = bool(adds) and not rebinds and all(core.src(c.func.value) == f'self[{kvar}].factors' and [core.src(a) for a in c.args] == [fvar] for c in adds)
+    ctx.check(ok_key, rule, filt, 'each factor is registered under its own origin key, unmodified (no re-attribution across origins)', filt.node, key='filter:own-key')
+
+
 def registration(ctx) -> None:
     prog = ctx.prog
     query, join = prog.cls(f'{FRAME}:Query'), prog.cls(f'{FRAME}:Join')
@@ -114,18 +134,7 @@ def registration(ctx) -> None:
     text = core.src(filt.node)
     ctx.check('self.select(expression)' in text, 'C14.registration', filt, 'filter() also registers the columns of the expression', filt.node, key='filter:select')
     ctx.check('expression.factors.items()' in text and '.factors.add(factor)' in text, 'C14.registration', filt, 'filter() registers the factor of each table with that table', filt.node, key='filter:factors')
-    # a factor constrains rows of its own origin only: it must be registered under the unmodified key of the
-    # factors mapping (re-attributing it - e.g. from a reference to its base table - filters other scans of that table
-    # and makes visit_table generate a predicate over a reference that is not opened yet)
-    loops = [n for n in core.walk_local(filt.node) if isinstance(n, ast.For) and 'factors.items()' in core.src(n.iter)]
-    ok_key = False
-    for lp in loops:
-        if isinstance(lp.target, ast.Tuple) and len(lp.target.elts) == 2 and isinstance(lp.target.elts[0], ast.Name):
-            kvar, fvar = lp.target.elts[0].id, core.src(lp.target.elts[1])
-            adds = [c for c in core.calls_in(lp) if isinstance(c.func, ast.Attribute) and c.func.attr == 'add' and core.src(c.func.value).endswith('.factors')]
-            rebinds = [s for s in ast.walk(lp) if isinstance(s, (ast.Assign, ast.AugAssign, ast.NamedExpr)) and kvar in {x.id for tg in ([s.target] if not isinstance(s, ast.Assign) else s.targets) for x in ast.walk(tg) if isinstance(x, ast.Name)}]
-            ok_key = bool(adds) and not rebinds and all(core.src(c.func.value) == f'self[{kvar}].factors' and [core.src(a) for a in c.args] == [fvar] for c in adds)
-    ctx.check(ok_key, 'C14.registration', filt, 'each factor is registered under its own origin key, unmodified (no re-attribution across origins)', filt.node, key='filter:own-key')
+    own_key_rule(ctx, 'C14.registration')
     # the only reader
     vt = prog.func(f'{PARSER}:Visitor.visit_table')
     text = core.src(vt.node)
